@@ -124,6 +124,15 @@ template <int S> static void explore(Ctx &c, long &id) {
       if (my % 331 == 0) c.st.sample(fmt("unit %ld: %s D=%d N=%d word=%s sigma=%g: getEnergy vs exact integral of the published polynomials for %d basis data + generic; sum over coordinates", my, order_name(S), D, N, word_str(N, w, base).c_str(), sigmas[si], nbasis(S, N)));
     }
   }
+  // (c) long splines: segment counts around the powers of two (blocked / unrolled summations change behaviour exactly there; seeded
+  //     change C04-m6: the last full block of 32 counted twice), uniform and alternating durations, generic data
+  for (int N : {15, 16, 17, 31, 32, 33, 63, 64, 65, 96, 128}) for (int pat = 0; pat < 2; ++pat) {
+    long my = id++; if (!c.mine(my)) continue; std::string unit = str(my); if (!c.begin(unit)) continue;
+    const double *L = letters(S); std::vector<double> T(N); for (int i = 0; i < N; ++i) T[i] = pat == 0 ? L[1] : ((i & 1) ? L[1] : L[1] * 0.5);
+    Runner<S> r(c, unit); Prob p; p.N = N; p.T = T; p.t0 = pat ? -2.5 : 1024.125; set_generic_data(p, (uint64_t)c.args.seed * 1000 + N); r.check_public(p);
+    ++c.st.evaluations; c.st.cls(fmt("%s/public/long", order_name(S))); if (!c.st.seen(fmt("long/S%d/N%d/%d", S, N, pat))) ++c.st.nontrivial;
+    if (N == 32) c.st.sample(fmt("unit %ld: %s D=%d N=%d %s durations, generic data: getEnergy vs exact integral; re-fitted object; sum over coordinates", my, order_name(S), D, N, pat ? "alternating" : "uniform"));
+  }
   // default-constructed spline reports zero energy
   { long my = id++; if (c.mine(my) && c.begin(str(my))) { Spl<S, D> e; ++c.st.evaluations; ++c.st.comparisons; c.st.seen(fmt("empty/S%d", S)); if (e.getEnergy() != 0.0) c.st.violate(str(my), fmt("%s: default-constructed spline reports non-zero energy", order_name(S))); } }
 }
